@@ -389,8 +389,24 @@ def no_hidden_state(ctx, R, rule_id, modules, classes=None, allow=()):
                             if isinstance(par, ast.Call) and par.func is n:
                                 continue
                             read.add(n.attr)
+        # a declared attribute that no longer exists under its name may have been renamed: an undeclared attribute that the
+        # constructor initialises takes its place (one for one)
+        vanished = sorted(a for a in allowed if a not in written and a not in read)
+        init_written = set()
+        for k in P.subclasses(c):
+            init = P.method(k, "__init__")
+            if init is not None and init.params:
+                for n in ast.walk(init.node):
+                    if isinstance(n, ast.Attribute) and isinstance(n.value, ast.Name) and n.value.id == init.params[0] and isinstance(n.ctx, ast.Store):
+                        init_written.add(n.attr)
+        renamed = {}
+        for attr in sorted(written):
+            if attr not in allowed and attr in read and attr in init_written and vanished:
+                renamed[attr] = vanished.pop(0)
         for attr, (m, n) in sorted(written.items()):
-            if attr in allowed:
+            if attr in renamed:
+                R.ok(rule_id, "%s|attr %s" % (cq, attr), "%s:%s (%s)" % (m.module.path, n.lineno, m.qual), "initialised by the constructor; takes the place of the declared attribute `%s`, which no longer exists (renamed)" % renamed[attr], nontrivial=False)
+            elif attr in allowed:
                 R.ok(rule_id, "%s|attr %s" % (cq, attr), "%s:%s (%s)" % (m.module.path, n.lineno, m.qual), "declared state of %s" % c.name, nontrivial=False)
             elif attr not in read:
                 R.ok(rule_id, "%s|attr %s" % (cq, attr), "%s:%s (%s)" % (m.module.path, n.lineno, m.qual), "written but never read", nontrivial=False)
